@@ -343,3 +343,75 @@ impl<H: Host> Emulator<H> {
         }
     }
 }
+
+/// Verification-only access points (deterministic simulation harness in /verif).
+/// Compiled only with `--cfg rustzx_verif`; absent from normal builds.
+#[cfg(rustzx_verif)]
+impl<H: Host> Emulator<H> {
+    /// CPU of the emulated machine
+    pub fn verif_cpu(&mut self) -> &mut Z80 {
+        &mut self.cpu
+    }
+
+    /// CPU and system bus as two disjoint borrows
+    pub fn verif_split(&mut self) -> (&mut Z80, &mut impl rustzx_z80::Z80Bus) {
+        (&mut self.cpu, &mut self.controller)
+    }
+
+    /// System bus (ULA, memory, ports) of the emulated machine
+    pub fn verif_bus(&mut self) -> &mut impl rustzx_z80::Z80Bus {
+        &mut self.controller
+    }
+
+    /// Executes exactly one `Z80::emulate` step on the machine bus (no event processing)
+    pub fn verif_step(&mut self) {
+        self.cpu.emulate(&mut self.controller);
+    }
+
+    /// T-states elapsed since the start of the current frame
+    pub fn verif_frame_clocks(&self) -> usize {
+        self.controller.frame_clocks
+    }
+
+    /// Overrides the in-frame clock (devices are not informed)
+    pub fn verif_set_frame_clocks(&mut self, clocks: usize) {
+        self.controller.frame_clocks = clocks;
+    }
+
+    /// Raw RAM page contents (machine numbering: 0..2 on 48K, 0..7 on 128K)
+    pub fn verif_ram_page(&mut self, page: u8) -> &mut [u8] {
+        self.controller.memory.ram_page_data_mut(page)
+    }
+
+    /// Raw ROM page contents
+    pub fn verif_rom_page(&mut self, page: u8) -> &mut [u8] {
+        self.controller.memory.rom_page_data_mut(page)
+    }
+
+    /// Re-synchronises memory-dependent devices after raw RAM page edits
+    pub fn verif_refresh_screen(&mut self) {
+        self.controller.refresh_memory_dependent_devices();
+    }
+
+    /// (last accepted 0x7FFD value, paging still unlocked, memory map as (is_rom, page))
+    pub fn verif_paging(&self) -> (u8, bool, [(bool, u8); 4]) {
+        use crate::zx::memory::Page;
+        let mut map = [(false, 0u8); 4];
+        for (block, item) in map.iter_mut().enumerate() {
+            *item = match self.controller.memory.get_bank_type(block) {
+                Page::Rom(page) => (true, page),
+                Page::Ram(page) => (false, page),
+            };
+        }
+        (
+            self.controller.read_7ffd(),
+            self.controller.verif_paging_enabled(),
+            map,
+        )
+    }
+
+    /// Frames completed since the last `emulate_frames` frame-counter reset
+    pub fn verif_passed_frames(&self) -> usize {
+        self.controller.frames_count()
+    }
+}
